@@ -94,6 +94,11 @@ def face_shape(d):
     return [s['nf']]
 
 
+def ring_of(p):
+    c = shapely.get_coordinates(p.exterior)
+    return [(float(x), float(y)) for x, y in c[:-1]]
+
+
 def impl_polygons(ems):
     out = []
     for p in ems.polygons:
